@@ -185,6 +185,11 @@ func checkMain(args []string) {
 		fc := eng.specs.Funcs[k]
 		fns := eng.funcs[k]
 		if len(fns) == 0 {
+			if i := strings.LastIndex(k, "$"); i > 0 && fc.Inline && len(fc.Ensures) == 0 && len(eng.funcs[k[:i]]) > 0 {
+				// an inlined closure that no longer exists while its parent does: its loop contracts are
+				// offered to loops that moved into helpers of the parent (exec.go, orphanSpecFor)
+				continue
+			}
 			engineErrors = append(engineErrors, "contract for "+short(k)+": no such function in the working tree")
 			continue
 		}
